@@ -1,6 +1,6 @@
 #!/bin/bash
 # usage: run_seeded.sh <seeded dir> <property> [extra gosym args]: applies the patch to /repo, runs the check, undoes the patch
-d=$1; p=$2; shift 2
+d=$(realpath $1); p=$2; shift 2
 git -C /repo apply $d/patch.diff || exit 3
 /verif/bin/gosym check --property $p "$@" 2>&1 | grep -a -v '^  harness' | cut -c1-220 | tail -6
 git -C /repo checkout -- .
